@@ -166,6 +166,65 @@ fn oracles(text: &str, ans: &str, tree: &Option<Tree>, rep: &mut Report) {
     }
 }
 
+/// very deeply nested text: `left` = ((((a,b),b),b)...); `right` = (b,(b,(b,...a)))); `unary` = ((((a)))); `unbalanced` = one
+/// closing parenthesis missing (must be an error value)
+pub fn deep_text(depth: usize, kind: &str) -> String {
+    let mut s = String::with_capacity(depth * 4 + 8);
+    match kind {
+        "left" | "unbalanced" => {
+            for _ in 0..depth { s.push('('); }
+            s.push('a');
+            for i in 0..depth { if kind == "unbalanced" && i == depth / 2 { s.push_str(",b"); } else { s.push_str(",b)"); } }
+        }
+        "right" => {
+            for _ in 0..depth { s.push_str("(b,"); }
+            s.push('a');
+            for _ in 0..depth { s.push(')'); }
+        }
+        _ => {
+            for _ in 0..depth { s.push('('); }
+            s.push_str("a:1");
+            for _ in 0..depth { s.push_str("):1"); }
+        }
+    }
+    s.push(';');
+    s
+}
+
+/// "for every input string the parser terminates and returns either an error or a tree": text nested far deeper than any
+/// call stack is deep, parsed in a child process with the default stack (the parser is a loop over the characters with an
+/// explicit parent stack; only the parser runs, nothing recursive is called on the result)
+fn deep_nesting(rep: &mut Report, thorough: bool) {
+    let exe = std::env::current_exe().map(|p| p.to_string_lossy().to_string()).unwrap_or_default();
+    let depths: &[usize] = if thorough { &[10_000, 200_000, 1_000_000] } else { &[10_000, 200_000] };
+    for &depth in depths {
+        for kind in ["left", "right", "unary", "unbalanced"] {
+            let case = format!("nw.parse-deep\t{kind}\t{depth}");
+            rep.case(&case, true);
+            rep.count("deep_nesting_texts");
+            let mut child = match std::process::Command::new(&exe).args(["probe-parse-deep", &depth.to_string(), kind]).stdout(std::process::Stdio::null()).stderr(std::process::Stdio::null()).spawn() {
+                Ok(c) => c,
+                Err(_) => continue,
+            };
+            let t0 = std::time::Instant::now();
+            let outcome = loop {
+                match child.try_wait() {
+                    Ok(Some(st)) => break match st.code() { Some(0) => "ok", Some(3) => "err", Some(4) => "nodes-missing", _ => "crash" },
+                    Ok(None) => {
+                        if t0.elapsed().as_secs_f64() > 60.0 { let _ = child.kill(); let _ = child.wait(); break "hang"; }
+                        std::thread::sleep(std::time::Duration::from_millis(5));
+                    }
+                    Err(_) => break "crash",
+                }
+            };
+            let want = if kind == "unbalanced" { "err" } else { "ok" };
+            if outcome != want {
+                rep.oracle(if outcome == "hang" { "terminates" } else { "no-panic" }, &format!("deep-nesting:{kind}:{outcome}"), &case, &format!("the parser process ended with {outcome} on {kind}-nested text of depth {depth} (expected {want})"));
+            }
+        }
+    }
+}
+
 pub fn nontrivial(text: &str) -> bool {
     text.chars().any(|c| "(),;:".contains(c))
 }
@@ -425,6 +484,7 @@ pub fn run(thorough: bool, seed: u64, driver: &str, rep: &mut Report) {
     for _ in 0..n_uni {
         jobs.push(Job::Unicode { seed: rng.next(), n: 10_000 });
     }
+    deep_nesting(rep, thorough);
     let d = driver.to_string();
     parallel(jobs, n_workers(), "C02", |j, r| do_job(j, &d, r), rep);
 }
